@@ -91,6 +91,7 @@ type Path struct {
 	fnStack    []*ssa.Function
 	intMode    bool
 	chanSlack  int
+	exitCode   int
 	merged     int
 	params     map[string]int64
 }
